@@ -2,7 +2,8 @@
 """C05 — the forward-backward envelope decreases along the reported iterates; the step size never
 grows.  DESIGN.md §6 C05.
 
-One proof stage over Props/C05 (PANOC), C05_Zerofpr, C05_Pantr, C05_Ocp, then per solver: harness build
+One proof stage over Props/C05 (PANOC), C05_Zerofpr, C05_Pantr, C05_Ocp and C05_NaN (the generated acceptance
+tests of all five solvers on the IEEE carrier XR: a NaN cost is never accepted), then per solver: harness build
 from the working tree, seeded runs (quadratic_upperbound_tolerance_factor and linesearch_tolerance_factor
 / TR_tolerance_factor drawn *independently*), bit-exact trace replay against the solver's loop model, and
 the monitors below on the progress-callback stream of the *real* solver (independent of the models):
@@ -31,8 +32,10 @@ recompute_last_prox_step_after_stepsize_change, ratio_threshold_acceptable < 0, 
 with Lγ_factor ≥ 1; the initial iterate of a solve whose initial step-size loop a visible stop request cut short
 (`InitInterrupted ∧ k = 0`: t₀ ≤ initialisation ticks, one callback); PANTR: the final iterate when the request was
 visible at the final head (t₀ ≤ T − 1).  Non-finite data is counted per cause: `nan_injected`, `overflow_range`
-(iterate / cost beyond 1e60) — any other non-finite field is a violation.  A NaN ψ(x̂) passes the library's
-`>`-tests: reported under the open finding C05-nan-cost-passes-acceptance-tests.
+(iterate / cost beyond 1e60) — any other non-finite field is a violation.  A NaN cost never satisfies the bound
+(regression of the repaired finding C05-nan-cost-passes-acceptance-tests; the tests are written `!(a <= b)`): a
+reported iterate whose ψ(x̂) or ψ(x) is NaN is treated like one that fails the quadratic upper bound — allowed only
+with L ≥ L_max or in the interrupted-step-size-loop classes above (`nan_cost_*` counters), a violation otherwise.
 """
 import math
 import os
@@ -65,8 +68,10 @@ CORPUS = [
     'y0=2:bff4000000000000,c000000000000000 Sig=2:3fe0000000000000,3fd0000000000000 maxiter=20 '
     'tol=3fb999999999999a crit=7 maxnp=10 overwrite=0 updcand=0 recomp=1 eager=1 force=0 mem=5 advseed=29 '
     'L0=3f90000000000000 stopat=0 stopcb=0 nanat=0 oot=0 wmscratch=0',
-    # one ψ evaluation returns NaN: the quadratic-upper-bound test passes on it (known finding
-    # C05-nan-cost-passes-acceptance-tests)
+    # regression op of the repaired finding C05-nan-cost-passes-acceptance-tests: the 10th ψ evaluation (a ψ(x̂) of
+    # the initial step-size loop, L < L_max) returns NaN.  Before the repair `qub_violated` compared with `>` and
+    # passed on it (callback 0 reported ψ(x̂) = NaN, Busy); now the step size is halved and ψ(x̂) is evaluated again:
+    # no callback reports a NaN cost (counter `nan_cost_evaluation_never_reported`, required for PANOC)
     'run solver=panoc dir=adv n=3 m=1 Q=9:c01e000000000000,3ffa000000000000,bfe0000000000000,3ffa000000000000,4008000000000000,bfec000000000000,bfe0000000000000,bfec000000000000,c018000000000000 c=3:bfe8000000000000,c008000000000000,401f000000000000 q4=3:4000000000000000,0000000000000000,4000000000000000 A=3:0000000000000000,bff0000000000000,3ff0000000000000 b=1:0000000000000000 Clb=3:c008000000000000,c010000000000000,bff4000000000000 Cub=3:7ff0000000000000,4010000000000000,7ff0000000000000 Dlb=1:c008000000000000 Dub=1:bffc000000000000 l1=0: x0=3:0000000000000000,c002000000000000,bff4000000000000 y0=1:4000000000000000 Sig=1:3fd0000000000000 maxiter=3 tol=3fb999999999999a crit=0 maxnp=1 overwrite=1 updcand=1 recomp=0 eager=1 force=1 mem=5 advseed=184 L0=3f70000000000000 stopat=0 stopcb=0 nanat=10 oot=0 wmscratch=1 advinit=0 qubtol=3f847ae147ae147b lstol=3ddb7cdfd9d7bdbb',
 ]
 
@@ -193,12 +198,48 @@ def nonfinite_cause(op, cb):
     return 'other'
 
 
-def nan_fact(op, cbs, k, what):
-    """A fact about the code, reported under its finding: the acceptance tests are written `a > b`, so a NaN cost
-    passes them (an +inf cost does not)."""
+def count_nan_evaluations(op, r, cbs):
+    """Coverage of the regression: runs in which a ψ-type evaluation of the problem returned NaN (recorded `psi` /
+    `psigradpsi` events), and among them the runs where no callback reports a NaN cost (the evaluation was rejected
+    by an acceptance test or by the finiteness screen of the candidates)."""
+    if op.nat('nanat', 0) == 0:
+        return
+    n = 0
+    for ev in r.get('events', []):
+        pe = LM.parse_event(ev)
+        if pe and pe[0] in ('psi', 'psigradpsi') and pe[2] and pe[2][0] != pe[2][0]:
+            n += 1
+    if n:
+        bump('nan_cost_evaluation_runs')
+        if not any(cb['psi'] != cb['psi'] or cb['psi_hat'] != cb['psi_hat'] for cb in cbs):
+            bump('nan_cost_evaluation_never_reported')
+
+
+def nan_cost_reported(op, r, cbs, k, P, flavor):
+    """Regression of the repaired finding KEY_NAN.  NaN is not ≤ anything: a reported iterate whose ψ(x̂) is NaN — or
+    whose ψ(x) is NaN, which makes the bound NaN — does not satisfy the quadratic upper bound, so the property allows
+    it only where it allows a failed bound: L reached L_max, or the step-size loop was cut short by a visible stop
+    request (the classes of `init_interrupted` / PANTR's interrupted final backtracking).  The exemptions use the
+    reported L, the op's L_max and the recorded stop tick only.
+    → None (exempt, counted) | (message, KEY_NAN)"""
     cb = cbs[k]
-    return (f'callback {k} ({cb["status"]}): ψ(x̂) = NaN (the problem returned NaN for that evaluation) {what}: '
-            f'`qub_violated` / `linesearch_violated` compare with `>`, which is false for NaN', KEY_NAN)
+    which = 'ψ(x̂)' if cb['psi_hat'] != cb['psi_hat'] else 'ψ(x)'
+    if cb['L'] >= P['Lmax']:
+        bump('nan_cost_reported_with_L_at_Lmax')
+        if k == len(cbs) - 1 and cb['status'] == 'Converged':
+            bump('nan_cost_converged_with_L_at_Lmax')       # the status chain looks at ε only (not part of the repair)
+        return None
+    if flavor == 'pantr':
+        if k == len(cbs) - 1 and cb['status'] != 'Busy' and LP.stoptick(r) is not None and \
+                LP.stoptick(r) <= r.get('ticks', 0) - 1:
+            bump('nan_cost_excluded_backtracking_interrupted')
+            return None
+    elif init_interrupted(r, cbs, k, flavor):
+        bump('nan_cost_excluded_initial_loop_interrupted')
+        return None
+    return (f'callback {k} ({cb["status"]}): the reported iterate has {which} = NaN (the problem returned NaN for that '
+            f'evaluation) although L={cb["L"]!r} < L_max={P["Lmax"]!r}: a NaN cost passed the quadratic-upper-bound '
+            f'test (`qub_violated` must be written so that NaN fails it: `!(ψ(x̂) <= bound)`)', KEY_NAN)
 
 
 def qub_holds(cb, qubtol):
@@ -305,12 +346,13 @@ def monitor(op_line, out_line, st, flavor='panoc'):
     bump('runs')
     if op.get('dir') == 'adv':
         bump('runs_adversarial_direction')
+    if flavor != 'ocp':
+        count_nan_evaluations(op, r, cbs)
     # ---- γ never increases; γ·L constant ------------------------------------------------------
     m = gamma_checks(cbs, P, f' (recomp={int(P["recomp"])})')
     if m:
         return m
     # ---- quadratic upper bound at every reported iterate ---------------------------------------
-    nanf = None
     for k, cb in enumerate(cbs):
         vals = [cb['psi'], cb['psi_hat'], cb['L'], cb['pTp']] + cb['p'] + cb['grad_psi']
         if not LP.finite(*vals):
@@ -319,9 +361,10 @@ def monitor(op_line, out_line, st, flavor='panoc'):
             if cause == 'other':
                 return (f'callback {k}: non-finite fields (ψ={cb["psi"]!r}, ψ̂={cb["psi_hat"]!r}, ‖p‖²={cb["pTp"]!r}) '
                         f'at a moderate iterate without NaN injection')
-            if cause == 'nan_injected' and cb['psi_hat'] != cb['psi_hat'] and cb['status'] == 'Busy':
-                bump('fact_nan_psihat_iterate_accepted')
-                nanf = nanf or nan_fact(op, cbs, k, 'and the iterate was accepted, the solve went on from it')
+            if cause == 'nan_injected' and (cb['psi_hat'] != cb['psi_hat'] or cb['psi'] != cb['psi']):
+                m = nan_cost_reported(op, r, cbs, k, P, flavor)
+                if m:
+                    return m
             continue
         if Fr(cb['pTp']) != 0 and abs(Fr(cb['pTp']) - sum(a * a for a in S.frv(cb['p']))) > \
                 8 * Fr(EPS) * Fr(cb['pTp']) + TINY:
@@ -398,7 +441,7 @@ def monitor(op_line, out_line, st, flavor='panoc'):
             if m:
                 return m
             bump('descent_safeguarded')
-    return nanf
+    return None
 
 
 # ------------------------------------------------------------------ PANTR
@@ -479,11 +522,11 @@ def monitor_pantr(op_line, out_line, st):
     approx = op.nat('approx', 1) != 0
     rationew = op.nat('rationew', 0) != 0
     bump('runs')
+    count_nan_evaluations(op, r, cbs)
     m = gamma_checks(cbs, P)
     if m:
         return m
     segs = LM.cb_segments(r['events'])
-    nanf = None
     for k, cb in enumerate(cbs):
         # ---- quadratic upper bound at every reported iterate -----------------------------------
         vals = [cb['psi'], cb['psi_hat'], cb['L'], cb['pTp']] + cb['p'] + cb['grad_psi']
@@ -493,9 +536,10 @@ def monitor_pantr(op_line, out_line, st):
             if cause == 'other':
                 return (f'callback {k}: non-finite fields (ψ={cb["psi"]!r}, ψ̂={cb["psi_hat"]!r}, ‖p‖²={cb["pTp"]!r}) '
                         f'at a moderate iterate without NaN injection')
-            if cause == 'nan_injected' and cb['psi_hat'] != cb['psi_hat'] and cb['status'] == 'Busy':
-                bump('fact_nan_psihat_iterate_accepted')
-                nanf = nanf or nan_fact(op, cbs, k, 'and the iterate was accepted, the solve went on from it')
+            if cause == 'nan_injected' and (cb['psi_hat'] != cb['psi_hat'] or cb['psi'] != cb['psi']):
+                m = nan_cost_reported(op, r, cbs, k, P, 'pantr')
+                if m:
+                    return m
         else:
             if Fr(cb['pTp']) != 0 and abs(Fr(cb['pTp']) - sum(a * a for a in S.frv(cb['p']))) > \
                     8 * Fr(EPS) * Fr(cb['pTp']) + TINY:
@@ -601,7 +645,7 @@ def monitor_pantr(op_line, out_line, st):
         bump('descent_tr_step')
         if same_gamma:
             bump('descent_tr_step_same_stepsize')
-    return nanf
+    return None
 
 
 # ------------------------------------------------------------------ check
@@ -670,7 +714,7 @@ def main(argv):
         for name, d in per.items():
             rep.note(f'monitor coverage [{name}]: ' + ', '.join(f'{k}={v}' for k, v in sorted(d.items())))
         need = {'panoc': ('descent_accelerated', 'descent_safeguarded', 'qub_holds', 'runs_adversarial_direction',
-                          'descent_accelerated_distinct_margins'),
+                          'descent_accelerated_distinct_margins', 'nan_cost_evaluation_never_reported'),
                 'zerofpr': ('descent_accelerated', 'descent_safeguarded', 'qub_holds',
                             'descent_accelerated_distinct_margins'),
                 'ocp': ('descent_accelerated', 'descent_safeguarded', 'qub_holds'),
@@ -684,6 +728,7 @@ def main(argv):
 
     return multiloop.loop_check(
         'C05', argv, monitor=mon, nontrivial=nontrivial, solvers=sols, extra_stage=extra,
+        extra_modules=['Alpaqa.Props.C05_NaN'],
         n_quick=1600, n_thorough=12000, sweep_quick=0, sweep_thorough=0,
         trusted_base=[
             'Lean 4.33 kernel + Mathlib (axioms: propext, Classical.choice, Quot.sound)',
@@ -704,7 +749,10 @@ def main(argv):
             'ratio_threshold_acceptable ≥ 0, Lγ_factor < 1 with ratio_approx_fbe_quadratic_model, step size '
             'unchanged after the test (or compute_ratio_using_new_stepsize); γ-monotonicity, γ·L = Lγ_factor '
             'and the quadratic upper bound cover all settings',
-            'IEEE rounding not modelled in the theorems; monitors allow a few ulps of the operands'],
+            'IEEE rounding not modelled in the theorems; monitors allow a few ulps of the operands; NaN / ±inf at the '
+            'acceptance tests: Props/C05_NaN over the IEEE carrier XR (a NaN cost fails qub_violated / '
+            'linesearch_violated of every solver); where the step-size loops do not test (L ≥ L_max) a NaN cost can '
+            'be reported — counted by the monitor'],
         rule='per solver (PANOC, ZeroFPR, PANTR, PANOC-OCP): seeded random runs on polynomial problems / OCPs '
              '(convex and nonconvex, mixed bounds, optional ℓ1), all direction providers incl. adversarial ones '
              '(≥ 1/3 of the PANOC runs), all criteria, force / recomp / eager / updcand on and off, NaN and stop '
